@@ -102,6 +102,27 @@ class Run:
         replay_fn(cex) -> (reproduced: bool, description: str) runs the
         counterexample against the real, unmodified emg3d package.
         """
+        # second opinion: a sample of discharged obligations through cvc5
+        if self.pid in XCHECK:
+            smp = []
+            for o in self.obs:
+                if o.get('smt2'):
+                    smp.extend(o.pop('smt2'))
+            if smp:
+                import random
+                random.Random(seed()).shuffle(smp)
+                t0 = time.time()
+                xc = crosscheck_cvc5(smp[:5], timeout_s=20)
+                self.validation.append(dict(
+                    what="cvc5 1.0.3 second opinion on SMT-LIB2 exports of "
+                         "discharged obligations (z3: unsat)", results=xc,
+                    agree=all(x['cvc5'] == 'unsat' for x in xc),
+                    seconds=round(time.time()-t0, 2)))
+                if any(x['cvc5'] == 'sat' for x in xc):
+                    self.error("cvc5 disagrees with z3 on a discharged "
+                               "obligation")
+        for o in self.obs:
+            o.pop('smt2', None)
         known = [k for k in load_known_findings()
                  if k.get('property') == self.pid]
         known_keys = {k['key']: k for k in known if k.get('status') == 'known'}
@@ -305,11 +326,28 @@ def crosscheck_cvc5(samples, timeout_s=30):
     return out
 
 
+XCHECK = ('C03', 'C04', 'C07', 'C08', 'C09', 'C10', 'C15', 'C16', 'C19')
+
+
 def _call(args):
     fn, case = args
     t0 = time.time()
     try:
-        return fn(case)
+        out = fn(case)
+        # SMT-LIB2 samples of discharged obligations (if enabled)
+        try:
+            import symx
+            cx = symx.core._CTX[0]
+            if cx is not None and cx.sample_smt2:
+                smp = [(lab, txt) for lab, txt in cx.sample_smt2
+                       if len(txt) < 400000 and 'FloatingPoint' not in txt
+                       and 'String' not in txt][:1]
+                if smp and out:
+                    out[0]['smt2'] = smp
+                cx.sample_smt2 = []
+        except Exception:     # noqa
+            pass
+        return out
     except BaseException as e:   # noqa  (path-steering are BaseException)
         tb = traceback.format_exc()
         return [ob(f"case {case!r}", 'error', cls='-', group='error',
